@@ -60,6 +60,8 @@ def center_xy(rng, L, kind=None):
         return -abs(rng.uniform(1, 50) * L), -abs(rng.uniform(1, 50) * L)
     if kind == 'halfint':
         return rng.randint(-50, 50) + 0.5, rng.randint(-50, 50) + 0.5
+    if rng.random() < 0.5:
+        return rng.randint(-50, 50), rng.randint(-50, 50)          # genuine Python ints (integer arithmetic with int queries)
     return float(rng.randint(-50, 50)), float(rng.randint(-50, 50))
 
 
@@ -136,11 +138,17 @@ def pixel_region_spec(rng, cls=None, size=None, center=None, include=None, angle
         w, h = L / asp, L
     c = S.pix(cx, cy)
     if cls == 'CirclePixelRegion':
+        if isinstance(cx, int) and L >= 4 and rng.random() < 0.5:
+            return S.reg(cls, meta=meta, center=c, radius=int(L / 2))        # integer radius with integer centre
         return S.reg(cls, meta=meta, center=c, radius=L / 2)
     if cls in ('EllipsePixelRegion', 'RectanglePixelRegion'):
         return S.reg(cls, meta=meta, center=c, width=w, height=h, angle=ang)
     if cls == 'PolygonPixelRegion':
         xs, ys = polygon_vertices(rng, L, cx, cy, poly_kind)
+        if L >= 8 and abs(cx) < 1e6 and rng.random() < 0.15:
+            # integer-dtype vertices
+            return S.reg(cls, meta=meta, vertices=S.pix({'a': [int(round(x)) for x in xs], 'dt': 'int64', 'sh': [len(xs)]},
+                                                        {'a': [int(round(y)) for y in ys], 'dt': 'int64', 'sh': [len(ys)]}))
         if rng.random() < 0.3:
             # vertices given relative to an origin (constructor option)
             ox, oy = cx + rng.uniform(-1, 1) * L, cy + rng.uniform(-1, 1) * L
@@ -189,10 +197,14 @@ def wcs_spec(rng, proj=None, parity=None, frame=None, scale=None, crval=None, co
     if scale is None:
         scale = logu(rng, 1e-5, 1e-2) if conformal else logu(rng, 0.01 / 3600, 0.1)
     rot = math.radians(rng.uniform(-180, 180))
+    exact_rot = rng.random() < 0.15          # exactly axis-aligned CD matrices (zero off-diagonal terms) are a common special case
     if parity is None:
         parity = -1 if conformal else rng.choice([-1, -1, 1])
     # CD matrix: standard parity has det < 0 (lon increases to the left)
     c, s = math.cos(rot), math.sin(rot)
+    if exact_rot:
+        c, s = rng.choice([(1.0, 0.0), (1.0, 0.0), (0.0, 1.0), (-1.0, 0.0), (0.0, -1.0)])
+        rot = math.atan2(s, c)
     cd = [[parity * scale * c, -scale * s], [parity * scale * s, scale * c]]
     if crval is None:
         latmax = 85 if conformal else 80
